@@ -121,6 +121,14 @@ fn cxfun(t: &mut Toks, cx: &mut Ctx) -> String {
         if dii > 1e-3 { cx.check(close(get("acot").tan() * z, one, condi * (1.0 + r)), "cot(acot z) != z"); }
         cx.check(close(get("asech").cosh() * z, one, condi * (1.0 + r)), "sech(asech z) != z");
         cx.check(get("asech").real >= -1e-9 * (1.0 + 1.0 / r), "Re asech z < 0 (not the principal branch)");
+        // principal ranges of the reciprocal-argument inverses (f^-1(1/z) with the principal f^-1): a right inverse alone does not
+        // fix the branch (pi - asin, atan + pi, acosh + 2 pi i ... are right inverses too)
+        { let a = get("asec"); cx.check(a.real >= -1e-9 && a.real <= PI + 1e-9, "Re asec z outside [0, pi] (not the principal branch)"); }
+        { let a = get("acsc"); cx.check(a.real.abs() <= PI / 2.0 + 1e-9, "Re acsc z outside [-pi/2, pi/2] (not the principal branch)"); }
+        if dii > 1e-3 { let a = get("acot"); cx.check(a.real.abs() <= PI / 2.0 + 1e-9, "Re acot z outside [-pi/2, pi/2] (not the principal branch)"); }
+        { let a = get("asech"); cx.check(a.imag > -PI - 1e-15 && a.imag <= PI + 1e-15, "Im asech z outside (-pi, pi]"); }
+        { let a = get("acsch"); cx.check(a.imag.abs() <= PI / 2.0 + 1e-9, "Im acsch z outside [-pi/2, pi/2] (not the principal branch)"); }
+        if d1i > 1e-3 { let a = get("acoth"); cx.check(a.imag.abs() <= PI / 2.0 + 1e-9, "Im acoth z outside [-pi/2, pi/2] (not the principal branch)"); }
         cx.check(close(get("acsch").sinh() * z, one, condi * (1.0 + r)), "csch(acsch z) != z");
         if d1i > 1e-3 { cx.check(close(get("acoth").tanh() * z, one, condi * (1.0 + r)), "coth(acoth z) != z"); }
     }
